@@ -303,7 +303,8 @@ _LX = "(-2 if len(line.split(',')) > 2 else -1)"
 _LOC = "line.split(',')[" + _LX + "].strip().split()"
 contract(_Q + "repr_failure._alter_traceback_linenos",
          params={"self": "DocTest", "tblines": "list[str]"}, returns="list[str]",
-         requires=[("a-part-failed", "self.failed_part != '<IMPORT>'"),
+         requires=[("an-import-failure-has-no-frame-in-the-pseudo-file",
+                    "implies(self.failed_part == '<IMPORT>', all(not (self._partfilename in line) for line in tblines))"),
                    ("lines-naming-the-pseudo-file-are-location-lines",
                     "all(implies(self._partfilename in line, len(" + _LOC + ") >= 2 and S.is_int_literal(" + _LOC + "[1])) for line in tblines)")],
          raises={},
@@ -311,7 +312,7 @@ contract(_Q + "repr_failure._alter_traceback_linenos",
          loops={0: LoopSpec(header="enumerate(tblines)", types={"new_tblines": "list[str]"},
                             invariants=[("so-far", "len(new_tblines) == _i0")])},
          props=["C09"],
-         opts={"native": False, "closure": {}, "entry_types": {"DocTest.failed_part": "DoctestPart"}},
+         opts={"native": False, "closure": {}},
          note="the rewriting of traceback lines cannot raise: in particular the source line it quotes is only indexed when the frame's "
               "line number lies inside the failing part (frames of helpers defined by earlier, longer parts share the pseudo file name); "
               "precondition: a line that contains the pseudo file name is a traceback location line ('File \"..\", line N[, in f]')",
